@@ -391,6 +391,67 @@ func (ex *Exec) addPC(t *T) {
 	}
 	ex.pc = append(ex.pc, t)
 	ex.pcSet[t.id] = true
+	ex.learnBound(t)
+}
+
+// learnBound records unsigned bounds of variables from conjuncts of the form
+// k <= v, v <= k, v < k (signed or unsigned, with non-negative k).
+func (ex *Exec) learnBound(t *T) {
+	c := ex.c
+	upd := func(v *T, lo, hi uint64, hasLo, hasHi bool) {
+		if v.op != OVar || v.s.K != KBV {
+			return
+		}
+		b, ok := c.varBounds[v.name]
+		if !ok {
+			b = [2]uint64{0, mask(v.s.W)}
+		}
+		if hasLo && lo > b[0] {
+			b[0] = lo
+		}
+		if hasHi && hi < b[1] {
+			b[1] = hi
+		}
+		c.varBounds[v.name] = b
+	}
+	half := func(w int) uint64 { return mask(w) >> 1 }
+	switch t.op {
+	case OSle, OUle, OSlt, OUlt:
+		x, y := t.a[0], t.a[1]
+		strict := t.op == OSlt || t.op == OUlt
+		signed := t.op == OSle || t.op == OSlt
+		if x.op == OConst && y.op == OVar {
+			if signed && x.c > half(x.s.W) {
+				return // negative lower bound says nothing about the unsigned value
+			}
+			lo := x.c
+			if strict {
+				lo++
+			}
+			// signed: v >= k >= 0 also means v is non-negative, i.e. v <= 2^(w-1)-1
+			upd(y, lo, half(y.s.W), true, signed)
+		}
+		if y.op == OConst && x.op == OVar {
+			if signed && y.c > half(y.s.W) {
+				return
+			}
+			hi := y.c
+			if strict {
+				if hi == 0 {
+					return
+				}
+				hi--
+			}
+			if signed {
+				// v <=s k with k >= 0 does not bound the unsigned value unless v is known non-negative
+				b, ok := c.varBounds[x.name]
+				if !ok || b[1] > half(x.s.W) {
+					return
+				}
+			}
+			upd(x, 0, hi, false, true)
+		}
+	}
 }
 
 func (ex *Exec) setModel(m *Model) {
